@@ -16,7 +16,7 @@
 
 use crate::address;
 use crate::error::Error;
-use crate::grin_core::core::amount_to_hr_string;
+use crate::grin_core::core::{amount_to_hr_string, FeeFields};
 use crate::grin_core::libtx::{
 	build,
 	proof::{ProofBuild, ProofBuilder},
@@ -30,7 +30,6 @@ use crate::slate::Slate;
 use crate::types::*;
 use crate::util::OnionV3Address;
 use std::collections::HashMap;
-use std::convert::TryInto;
 
 /// Initialize a transaction on the sender side, returns a corresponding
 /// libwallet transaction slate with the appropriate inputs selected,
@@ -84,7 +83,7 @@ where
 	}
 
 	// Update the fee on the slate so we account for this when building the tx.
-	slate.fee_fields = fee.try_into().unwrap();
+	slate.fee_fields = FeeFields::new(0, fee)?;
 	slate.add_transaction_elements(keychain, &ProofBuilder::new(keychain), elems)?;
 
 	// Create our own private context
@@ -370,6 +369,13 @@ where
 	Ok((parts, coins, change_amounts_derivations, fee))
 }
 
+/// amount + fee, as an error rather than an overflow for amounts near the numeric limit
+fn amount_plus_fee(amount: u64, fee: u64) -> Result<u64, Error> {
+	amount.checked_add(fee).ok_or_else(|| {
+		Error::GenericError("Transaction amount is too large to add the fee".to_owned())
+	})
+}
+
 /// Select outputs and calculating fee.
 pub fn select_coins_and_fee<'a, T: ?Sized, C, K>(
 	wallet: &mut T,
@@ -415,7 +421,7 @@ where
 	let mut total: u64 = coins.iter().map(|c| c.value).sum();
 	let mut amount_with_fee = match amount_includes_fee {
 		true => amount,
-		false => amount + fee,
+		false => amount_plus_fee(amount, fee)?,
 	};
 
 	if total == 0 {
@@ -444,7 +450,7 @@ where
 		fee = tx_fee(coins.len(), num_outputs, 1);
 		amount_with_fee = match amount_includes_fee {
 			true => amount,
-			false => amount + fee,
+			false => amount_plus_fee(amount, fee)?,
 		};
 
 		// Here check if we have enough outputs for the amount including fee otherwise
@@ -475,7 +481,7 @@ where
 			total = coins.iter().map(|c| c.value).sum();
 			amount_with_fee = match amount_includes_fee {
 				true => amount,
-				false => amount + fee,
+				false => amount_plus_fee(amount, fee)?,
 			};
 		}
 	}
@@ -543,6 +549,12 @@ where
 			change, num_change_outputs
 		);
 
+		if num_change_outputs == 0 || change < num_change_outputs as u64 {
+			return Err(Error::GenericError(format!(
+				"Cannot split change of {} into {} change outputs",
+				change, num_change_outputs
+			)));
+		}
 		let part_change = change / num_change_outputs as u64;
 		let remainder_change = change % part_change;
 
@@ -608,7 +620,7 @@ where
 	// greedy. But if max_outputs(500) is actually not enough to cover the whole
 	// amount, the wallet should allow going over it to satisfy what the user
 	// wants to send. So the wallet considers max_outputs more of a soft limit.
-	if eligible.len() > max_outputs {
+	if max_outputs > 0 && eligible.len() > max_outputs {
 		for window in eligible.windows(max_outputs) {
 			let windowed_eligibles = window.to_vec();
 			if let Some(outputs) = select_from(amount, select_all, windowed_eligibles) {
